@@ -316,6 +316,8 @@ def run_worker(script, args, inp=None, timeout=3600, env=None, py=None):
     e.setdefault("OPENBLAS_NUM_THREADS", "1")
     if env:
         e.update(env)
+    if py and not os.path.exists(py):
+        py = None        # no tooling interpreter: the SciPy templates then skip themselves ("no scipy") under the repository's interpreter
     cmd = [py or PY, os.path.join(ROOT, "harness", script)]
     cov = os.environ.get("VERIF_COVERAGE_DIR")
     if cov and not py:
